@@ -386,3 +386,20 @@ Qed.
 
 Lemma history_independent_fixed : history_independent true.
 Proof. intros W h o. apply history_independent_partial. left. reflexivity. Qed.
+
+Lemma history_independent_partial_guard (W : world) (fx : bool) (h : list (op W)) (o : op W) :
+  stale_free W h = true \/ is_classify W o = false -> out_after W fx h o = fresh W fx o h.
+Proof. intros H. apply history_independent_partial. right. exact H. Qed.
+
+Lemma history_independent_all_rules (W : world) (fx : bool) (h : list (op W)) (o : op W) :
+  all_loads_rules W h = true -> out_after W fx h o = fresh W fx o h.
+Proof. intros H. apply history_independent_partial. right. left. apply all_rules_stale_free. exact H. Qed.
+
+Lemma history_independent_no_rules_before_other (W : world) (fx : bool) (h : list (op W)) (o : op W) :
+  no_rules_before_other W h = true -> out_after W fx h o = fresh W fx o h.
+Proof.
+  intros H. apply history_independent_partial. right. left. apply no_rules_before_other_stale_free. exact H.
+Qed.
+
+Lemma history_independent_of_flag (fx : bool) : fx = true -> history_independent fx.
+Proof. intros ->. exact history_independent_fixed. Qed.
